@@ -107,6 +107,19 @@ theorem gettimeout_polls_getnowait :
     pollsOnly RequestQueue.facts "GetTimeout" = true ∧ pollsOnly RequestDoubleQueue.facts "GetTimeout" = true := by
   decide
 
+/-- the clock functions a method calls -/
+def clockFns : List String := ["dateutil.Now", "dateutil.SystemNow", "time.Now", "dateutil.SystemMillis", "dateutil.Millis"]
+def usedClocks (T : TypeFacts) (m : String) : List String :=
+  match T.find m with
+  | none => ["?"]
+  | some M => M.extCalls.filter (fun c => clockFns.contains c)
+
+/-- the timed get computes its deadline and the remaining time with one and the same clock (a
+    server-time delta between two clocks would make it return early or late) -/
+theorem gettimeout_uses_one_clock :
+    (usedClocks RequestQueue.facts "GetTimeout").length = 1 ∧
+    (usedClocks RequestDoubleQueue.facts "GetTimeout").length = 1 := by decide
+
 /-! ### RequestDoubleQueue -/
 
 theorem double_put_capacity_test_and_broadcast :
